@@ -28,6 +28,7 @@ def small_ruleset(rng, markov_pos=None, rich=False):
     if rich:
         # lengths and n-grams at levels up to 2, Markov targets up to 4: a resumed level has to step to further lengths / IP levels
         om = gen_omen.gen_omen(rng, ngram=2, nletters=2, maxlen_extra=2, levels=[0, 1, 2], density=1.0)
+        om['ln'][1:] = [rng.choice([0, 1]), 1, 2]          # lengths 2, 3, 4 at increasing length levels
     else:
         om = gen_omen.gen_omen(rng, ngram=2, nletters=2, maxlen_extra=1, levels=[0, 1], density=1.0)
     om['keyspace'] = [[l, 1] for l in range(0, 19)]
@@ -37,7 +38,7 @@ def small_ruleset(rng, markov_pos=None, rich=False):
                           'C2': [['LL', '0.9'], ['UL', '0.1']], 'O1': [['!', '0.5'], ['#', '0.25'], ['$', '0.25']]},
             'grammar': [['A2D1', '0.45'], ['D1O1', '0.17'], ['D1', '0.03']], 'omen_prob': [['1', '0.5'], ['2', '0.3']], 'omen': om}
     if rich:
-        a, b = sorted(rng.sample([1, 2, 3, 4], 2))
+        a, b = rng.choice([1, 2]), rng.choice([3, 4])
         spec['omen_prob'] = [[str(b), '0.5'], [str(a), '0.3']] if rng.random() < 0.5 else [[str(a), '0.5'], [str(b), '0.3']]
     pm = rng.choice(['0.35', '0.0001', '0.2'])
     pos = rng.randint(0, 3) if markov_pos is None else markov_pos
